@@ -2556,7 +2556,7 @@ def _i_bit_length(ip, recv, args, kwargs, node, fr):
     return VInt(r)
 
 
-@method('opaque', 'set', 'clear', 'release', 'cancel', 'close', 'info', 'debug', 'warning', 'error', 'exception')
+@method('opaque', 'set', 'clear', 'release', 'cancel', 'close', 'info', 'debug', 'warning', 'error', 'exception', 'spawn')
 def _o_noop(ip, recv, args, kwargs, node, fr):
     return VConst(None)
 
